@@ -89,10 +89,19 @@ def unit_h0_guards(nb, hermitian, timeout_ms=20000):
                     else:
                         blocks[(i, j)] = Val(f"H0[{i},{j}]", ("ndarray",))
                 return blocks[(i, j)]
+        conv_calls = []
+
+        def convert_if_zero(e, v, atol=None):
+            # callee contract (own unit: formats / sylvester): the sentinel iff the value is zero within atol; the block kinds of this harness already are the classes
+            # "zero within atol" (ZERO) and "not zero within atol" (numeric / symbolic values), so the conversion is the identity on them - what matters is that atol is passed
+            conv_calls.append(atol)
+            return v
+        ATOL_ = T("atol")
         eng.globals.update({"zero": ZERO, "sympy": Namespace("sympy", {"MatrixBase": TypeObj("MatrixBase"), "Expr": TypeObj("Expr")}),
-                            "warn": Builtin("warn", lambda e, *a, **k: warned.append(a)), "UserWarning": TypeObj("UserWarning")})
+                            "warn": Builtin("warn", lambda e, *a, **k: warned.append(a)), "UserWarning": TypeObj("UserWarning"),
+                            "_convert_if_zero": Builtin("_convert_if_zero", convert_if_zero)})
         use_implicit = bool(eng.branch(eng.fresh("use_implicit", "bool")))
-        env = Env(None, {"H": H(), "hermitian": hermitian, "zero_order": STup([0]), "use_implicit": use_implicit})
+        env = Env(None, {"H": H(), "hermitian": hermitian, "zero_order": STup([0]), "use_implicit": use_implicit, "atol": ATOL_})
         relevant = [(i, j) for i in range(nb) for j in range(nb) if i != j and not (hermitian and i > j)]
         offending = z3.Or(*[z3.And(z3.Not(kind[p][0]), z3.Or(z3.Not(kind[p][1]), defnz[p])) for p in relevant]) if relevant else z3.BoolVal(False)
         all_diag_zero = z3.And(*[kind[(i, i)][0] for i in range(nb)])
@@ -106,6 +115,7 @@ def unit_h0_guards(nb, hermitian, timeout_ms=20000):
         eng.oblige("nonzero-off-diagonal-block-of-H0-is-rejected-for-every-pair-of-blocks", z3.Not(offending),
                    detail="every pair (i, j), i != j (i < j in Hermitian mode), is inspected - the last (implicit) block included; numeric blocks and symbolic blocks that sympy knows to be non-zero")
         eng.oblige("all-zero-diagonal-is-rejected", z3.Not(all_diag_zero))
+        eng.oblige("off-diagonal-blocks-compared-with-zero-within-the-callers-atol", z3.BoolVal(all(a is ATOL_ for a in conv_calls)), detail=f"{len(conv_calls)} conversions")
         eng.oblige("every-relevant-pair-was-read", z3.BoolVal(all(p in reads for p in relevant)), detail=f"read {sorted(set(reads))}, relevant {relevant}")
         nsym = [p for p in relevant if blocks.get(p) is not None and blocks[p] is not ZERO and "MatrixBase" in getattr(blocks[p], "kinds", ())]
         eng.oblige("undecided-symbolic-off-diagonal-block-warns", z3.BoolVal(len(warned) == len(nsym)), detail="one warning per symbolic block that sympy cannot decide (those known to be non-zero raise)")
